@@ -357,7 +357,7 @@ class C10(Check):
                   'exact Fraction judge (rounded originals as half-spaces) and certified exact LP (meaning after the reader\'s simplify).')
     lean_modules = ["Pacti.Props.C10"]
     theorems = ["Pacti.C10.machine_roundtrip", "Pacti.C10.fromDict_wf", "Pacti.C10.fromDict_missing", "Pacti.C10.mk_normal",
-                "Pacti.C10.round4_close", "Pacti.C10.fmt4g_round4_same_digits", "Pacti.C10.round4_idem", "Pacti.C10.round4_digits", "Pacti.C10.round4_neg",
+                "Pacti.C10.round4_close", "Pacti.C10.fmt4g_round4_same_digits", "Pacti.C10.readNum_fmt4g", "Pacti.C10.fmt4g_readNum_fmt4g", "Pacti.C10.round4_idem", "Pacti.C10.round4_digits", "Pacti.C10.round4_neg",
                 "Pacti.C10.fold_eq_sound", "Pacti.C10.fold_abs_sound", "Pacti.C10.fold_abs0_sound", "Pacti.C10.exact_is_opposite",
                 "Pacti.C10.folds_sound", "Pacti.C10.folds_length_le"]
     quick_n = 1500
@@ -678,7 +678,49 @@ class C10(Check):
                 viol.append({"signature": "serial:round4-inconsistent", "what": f"x={x!r}: printed {s}, round4 {v4}, Fraction rounding {round4_frac(Fraction(x))}",
                              "witness": {"x": x.hex()}, "case": {"x": x.hex()}, "infra": False})
                 break
-        return viol, {"number_stream": {"numbers": len(xs), "scientific": sci, "all_equal": not viol}}
+        # reading numerals back: the model's `readNum` against Python's exact `Fraction(s)` on every printed string and on
+        # perturbed / malformed ones (the model covers the printer's shape `[-]ddd[.ddd][e(+|-)dd]` and rejects the rest)
+        import re
+
+        shape = re.compile(r"^-?[0-9]+(\.[0-9]+)?(e[+-][0-9]+)?$")
+        pool = sorted(set(strs))[:: max(1, len(set(strs)) // 4000)]
+        odd = ["1e5", "1E+05", "1.", ".5", "1.5e+", "e5", "--1", "+1", "1e+05", "007", "1.2.3", "1e+0x", "", "-", "-0.5e-03", "12.50e+10", " 1", "1_0"]
+        for sx in pool[:300]:
+            odd += [sx + "0", sx.replace("e", "E"), sx.replace(".", ",") if "." in sx else sx + ".", sx[:-1]]
+        ss = pool + odd
+        rres = C.run_driver([{"op": "readnum", "ss": ss[i:i + 2000]} for i in range(0, len(ss), 2000)], nproc=16)
+        rd = [x for r in rres for x in r["ok"]]
+        n_shape = 0
+        for sx, mv in zip(ss, rd):
+            if shape.match(sx):
+                n_shape += 1
+                if mv is None or Fraction(mv) != Fraction(sx) or abs(float(Fraction(mv)) - float(sx)) > 1e-12 * abs(float(sx)):
+                    viol.append({"signature": "serial:readnum-model", "what": f"readNum({sx!r}) = {mv}, Python reads {Fraction(sx)}", "witness": {"s": sx},
+                                 "case": {"s": sx}})
+                    break
+            elif mv is not None:
+                viol.append({"signature": "serial:readnum-model", "what": f"readNum accepts {sx!r} (outside the modelled shape) as {mv}", "witness": {"s": sx},
+                             "case": {"s": sx}})
+                break
+        # and the library's own parser reads a printed numeral as the same number
+        from pacti.terms.polyhedra.serializer import polyhedral_termlist_from_string
+
+        n_parse = 0
+        for sx in pool[:400]:
+            if sx.startswith("-") or float(sx) == 0:
+                continue
+            try:
+                tl = polyhedral_termlist_from_string(sx + " x <= 1")
+                cf = list(tl[0].variables.values())[0]
+            except Exception as e:  # noqa
+                viol.append({"signature": "serial:printed-number-not-parsed", "what": f"the grammar rejects the printed numeral {sx!r}: {e!r}", "witness": {"s": sx}, "case": {"s": sx}})
+                break
+            n_parse += 1
+            if float(cf) != float(sx):
+                viol.append({"signature": "serial:printed-number-misread", "what": f"the grammar reads {sx!r} as {cf!r}", "witness": {"s": sx}, "case": {"s": sx}})
+                break
+        return viol, {"number_stream": {"numbers": len(xs), "scientific": sci, "all_equal": not viol, "readnum_strings": len(ss), "readnum_in_shape": n_shape,
+                                        "grammar_reads": n_parse}}
 
 
 def entails_many(hyps: List[dict], goals: List[dict], tol_rel: Fraction = J.TOL, box: int = J.BOX) -> List[Optional[dict]]:
